@@ -534,7 +534,7 @@ def hdr_check(run):
         for k, v in info["known_seen"].items():
             if k.startswith(prop):
                 known_seen[k] = known_seen.get(k, 0) + v
-        nt = info.get("c17_nontrivial") if prop == "C17" else (info.get("two_ctx") or info.get("look_alike") or info.get("sized_rettmp") or info.get("suffix_names"))
+        nt = info.get("c17_nontrivial") if prop == "C17" else (info.get("two_ctx") or info.get("look_alike") or info.get("sized_rettmp") or info.get("suffix_names") or info.get("generic_ctx"))
         if nt:
             nontrivial.add(info["seed"])
             if len(samples) < 3:
@@ -543,7 +543,7 @@ def hdr_check(run):
             if v["prop"] == prop and not any(x["key"] == v["key"] for x in viol):
                 viol.append({"sub": "headers", "key": v["key"], "what": v["what"], "case": {"seed": info["seed"], "mode": info.get("mode", "C"), "insts": info["insts"], "groups": info["groups"], "config": info["config"]}})
     rule17 = "API models (1-4 traits with 1-4 methods of 0-4 scalar/struct/slice/pointer/callback arguments, by-ref/by-mut/consuming receivers, scalar/struct/slice/self-container returns, deliberate method-name clashes; 0-2 groups; Box/Mut/Ref containers; Arc and no context; optional default container/context and function prefix) are rendered in cbindgen's C output shape (concrete item shapes as in examples/pregen-headers) and, every third model, in its C++ template shape, post-processed by /repo's cglue-bindgen behind a stub cbindgen, and EXECUTED: a generated C (resp. C++) driver builds every object with mock vtables/box/arc functions and calls every wrapper the tool's naming scheme offers for every entry (C++: the member function; the destructor as drop helper) with distinctive arguments; expected: exactly that slot of that object's vtable, the object's container, arguments unchanged and in order, scripted return value back, and for consuming entries / drop helpers instance and context released once with a context clone held across the call. Non-trivial = a vtable with entries of different arity, or a group with a method-name clash, or a consuming entry with a context"
-    rule18 = "the same header space plus user declarations interleaved at generated positions (some named like CGlue patterns: ...Vtbl, ...RetTmp..., ...Container..., Context..., CGlueX): (1) gcc and clang -std=c99 (g++ and clang++ -std=c++11 for C++ models) -fsyntax-only accept the output on its own; (2) the tool run 5 times in fresh processes gives byte-identical output, also into an output path that already holds a longer file; (3) every foreign declaration occurs verbatim and in the original order; (4) argv contract with a recording stub cbindgen (and stub rustup for +nightly): arguments after `--` minus the output option reach cbindgen unchanged and in order, arguments before `--` do not, the processed header lands in the output path or on stdout, -c selects the config. Non-trivial = two context kinds in one header, a look-alike foreign declaration, a trait with sized temporary-return storage, or one trait name being a suffix of another"
+    rule18 = "the same header space plus user declarations interleaved at generated positions (some named like CGlue patterns: ...Vtbl, ...RetTmp..., ...Container..., Context..., CGlueX): (1) gcc and clang -std=c99 (g++ and clang++ -std=c++11 for C++ models) -fsyntax-only accept the output on its own; (2) the tool run 5 times in fresh processes gives byte-identical output, also into an output path that already holds a longer file; (3) every foreign declaration occurs verbatim and in the original order; (4) argv contract with a recording stub cbindgen (and stub rustup for +nightly): arguments after `--` minus the output option reach cbindgen unchanged and in order, arguments before `--` do not, the processed header lands in the output path or on stdout, -c selects the config. Non-trivial = two context kinds in one header, a look-alike foreign declaration, a trait with sized temporary-return storage, one trait name being a suffix of another, or a context-generic item monomorphised for two context kinds"
     res_main = {"_label": "headers", "evaluations": evals, "distinct_nontrivial": len(nontrivial), "samples": samples, "violations": viol, "known_seen": known_seen,
                 "classes": {"headers:models": evals, "headers:models-c++": n_cpp, "headers:vtable-entries-executed": entries}, "rule": rule17 if prop == "C17" else rule18,
                 "assumptions": ["cbindgen is not installed: the raw headers are an emulation restricted to concrete item shapes that occur verbatim in examples/pregen-headers/bindings.h (C) and to the template shapes codegen/cpp.rs matches (C++)"]}
